@@ -442,13 +442,20 @@ impl RdbEngine {
                     // Value and TTL are taken together, at one instant
                     match storage.get_with_ttl(db_idx, &key)? {
                         Some((value, ttl)) => {
+                            // The remaining time becomes a wall-clock deadline at once: computed when the
+                            // pair is written, the deadline would move by whatever time this thread spent
+                            // (or was descheduled) in between
+                            let expiry_ms = ttl.map(|ttl| SystemTime::now()
+                                .duration_since(UNIX_EPOCH)
+                                .unwrap()
+                                .as_millis() as u64 + ttl.as_millis() as u64);
                             #[cfg(ferrous_verif)]
                             crate::verif::sync_point("rdb_after_get");
                             #[cfg(ferrous_verif)]
                             crate::verif::sync_point("rdb_after_ttl");
                             
                             // Write key-value pair
-                            writer.write_key_value(&key, &value, ttl)?;
+                            writer.write_key_value(&key, &value, expiry_ms)?;
                         }
                         _ => {
                             // Key doesn't exist or expired, skip
@@ -549,14 +556,9 @@ impl<W: Write> RdbWriter<W> {
     }
     
     /// Write key-value pair
-    fn write_key_value(&mut self, key: &[u8], value: &Value, ttl: Option<Duration>) -> io::Result<()> {
-        // Write expiry if present
-        if let Some(ttl) = ttl {
-            let expiry_ms = SystemTime::now()
-                .duration_since(UNIX_EPOCH)
-                .unwrap()
-                .as_millis() as u64 + ttl.as_millis() as u64;
-            
+    fn write_key_value(&mut self, key: &[u8], value: &Value, expiry_ms: Option<u64>) -> io::Result<()> {
+        // Write expiry (milliseconds since the epoch) if present
+        if let Some(expiry_ms) = expiry_ms {
             self.write_byte(RdbOpcode::ExpireTimeMs as u8)?;
             self.write_u64_le(expiry_ms)?;
         }
